@@ -1,12 +1,11 @@
-(* C14: constant folding (ConstantFoldingRule) and the whole WHERE query.
-   Outside the recorded classes, `SELECT * FROM t WHERE e` returns exactly the rows on which
-   e is TRUE in the reference semantics. *)
-From Coq Require Import ZArith List Bool Lia ZifyBool.
+(* C14: constant folding (ConstantFoldingRule) and the two whole queries.
+   `SELECT * FROM t WHERE e` returns exactly the rows on which e is TRUE in the reference
+   semantics; `SELECT id, (e) FROM t` yields the reference TRUE / FALSE / NULL. *)
+From Coq Require Import ZArith List Bool Lia.
 From TV Require Import Model.SqlSpec Model.PredImpl Model.PredClass
-  Proof.SqlSpecLaws Proof.PredBase Proof.PredWhere.
+  Proof.SqlSpecLaws Proof.PredBase Proof.PredEval.
 Import ListNotations.
 Open Scope Z_scope.
-Ltac Zify.zify_post_hook ::= Z.to_euclidean_division_equations.
 
 (* ------------------------------------------------------------------ literal comparisons *)
 Lemma as_literal_some : forall e v, as_literal e = Some v -> e = ELit v.
@@ -19,46 +18,20 @@ Proof.
   - congruence.
   - congruence.
 Qed.
-Lemma as_literal_float_pos : forall b, as_literal (ELit (VFloat b)) = Some (VFloat b) -> f_sign b = 0.
-Proof. intros b H. cbn in H. destruct (f_sign b =? 0) eqn:E; [now apply Z.eqb_eq in E|discriminate]. Qed.
 
-Lemma f_key_pos : forall b, f_ok b = true -> f_sign b = 0 -> f_key b = b.
+(* whenever literals_equal decides, it decides like the reference *)
+Lemma literals_equal_spec : forall x y eq op t,
+  literals_equal x y = Some eq -> cmp3 op x y = Some t ->
+  exists c, t = tv_of_bool (cmp_holds op c) /\ (eq = true <-> c = Eq).
 Proof.
-  intros b Hok Hs. unfold f_key. rewrite Hs. cbn. unfold f_ok in Hok. unfold f_sign in Hs.
-  apply andb_prop in Hok as [H1 H2]. apply Z.leb_le in H1. apply Z.ltb_lt in H2.
-  change (2 ^ 63) with 9223372036854775808 in *. lia.
-Qed.
-
-Lemma fcmp_ok : forall a b c, fcmp a b = Some c -> f_ok a = true /\ f_ok b = true /\ c = Z.compare (f_key a) (f_key b).
-Proof.
-  intros a b c H. unfold fcmp in H.
-  destruct (f_ok a); cbn in H; [|discriminate]. destruct (f_ok b); cbn in H; [|discriminate].
-  destruct (negb (f_is_nan a) && negb (f_is_nan b)); [|discriminate]. injection H as <-. auto.
-Qed.
-
-Lemma Zcompare_eq_iff : forall x y, (x ?= y) = Eq <-> x = y.
-Proof. intros. apply Z.compare_eq_iff. Qed.
-
-(* literals of one kind: the folding verdict is the reference verdict *)
-Lemma literals_equal_spec : forall x y op t,
-  same_kind x y = true ->
-  as_literal (ELit x) = Some x -> as_literal (ELit y) = Some y ->
-  cmp3 op x y = Some t ->
-  exists c, t = tv_of_bool (cmp_holds op c) /\ (literals_equal x y = true <-> c = Eq).
-Proof.
-  intros x y op t Hk Lx Ly Hc. destruct x, y; cbn in Hk; try discriminate.
-  - (* Int *) cbn in Hc. injection Hc as <-. exists (z ?= z0). split; [reflexivity|].
-    cbn [literals_equal]. rewrite Z.eqb_eq. symmetry. apply Z.compare_eq_iff.
-  - (* Float *) unfold cmp3 in Hc. cbn [cmp_values] in Hc.
-    destruct (fcmp bits bits0) as [c|] eqn:E; cbn in Hc; [|discriminate]. injection Hc as <-.
-    exists c. split; [reflexivity|].
-    apply fcmp_ok in E as (O1 & O2 & ->).
-    rewrite (f_key_pos _ O1 (as_literal_float_pos _ Lx)), (f_key_pos _ O2 (as_literal_float_pos _ Ly)).
-    cbn [literals_equal]. rewrite Z.eqb_eq. symmetry. apply Z.compare_eq_iff.
-  - (* Text *) cbn in Hc. injection Hc as <-. exists (bytes_cmp s s0). split; [reflexivity|].
-    cbn [literals_equal]. rewrite zlist_eqb'_eq. symmetry. apply bytes_cmp_eq.
-  - (* Bool *) cbn in Hc. injection Hc as <-. exists (Z.b2z b ?= Z.b2z b0). split; [reflexivity|].
-    cbn [literals_equal]. destruct b, b0; cbn; split; intros; congruence.
+  intros x y eq op t Hl Hc. destruct x, y; cbn in Hl; try discriminate.
+  - destruct (i64_ok z && i64_ok z0); [|discriminate]. injection Hl as <-.
+    cbn in Hc. injection Hc as <-. exists (z ?= z0). split; [reflexivity|].
+    rewrite Z.eqb_eq. symmetry. apply Z.compare_eq_iff.
+  - injection Hl as <-. cbn in Hc. injection Hc as <-. exists (bytes_cmp s s0). split; [reflexivity|].
+    rewrite zlist_eqb'_eq. symmetry. apply bytes_cmp_eq.
+  - injection Hl as <-. cbn in Hc. injection Hc as <-. exists (Z.b2z b ?= Z.b2z b0). split; [reflexivity|].
+    destruct b, b0; cbn; split; intros; congruence.
 Qed.
 
 (* ------------------------------------------------------------------ try_fold is sound *)
@@ -66,11 +39,11 @@ Definition fold_ok (e : expr) (f : option folded) : Prop :=
   match f with
   | None => True
   | Some FTrue => forall r t, sem3 e r = Some t -> t = TT
-  | Some FFalse => forall r t, sem3 e r = Some t -> tv_is_true t = false
+  | Some FFalse => forall r t, sem3 e r = Some t -> t = FF
   | Some (FSimp e') =>
-      cls_syn e' = 0 /\ try_fold e' = None /\
+      (wf_expr e = true -> wf_expr e' = true) /\ try_fold e' = None /\
       (forall r t, sem3 e r = Some t -> exists t', sem3 e' r = Some t' /\ tv_is_true t' = tv_is_true t) /\
-      (forall r, cls_p e r = 0 -> cls_p e' r = 0)
+      (forall r, cls13 e r = 0 -> cls13 e' r = 0)
   end.
 
 Lemma sem3_and_inv : forall a b r t, sem3 (EAnd a b) r = Some t ->
@@ -85,90 +58,90 @@ Proof.
   intros a b r t H. rewrite sem3_or in H. destruct (sem3 a r) as [ta|], (sem3 b r) as [tb|]; try discriminate.
   injection H as <-. eauto.
 Qed.
-
-Lemma try_fold_cmp : forall op a b, cls_syn (ECmp op a b) = 0 -> fold_ok (ECmp op a b) (try_fold (ECmp op a b)).
+Lemma sem3_not_inv : forall a r t, sem3 (ENot a) r = Some t -> exists ta, sem3 a r = Some ta /\ t = tv_not ta.
 Proof.
-  intros op a b Hc.
-  destruct op; cbn [try_fold]; try exact I; cbn [cls_syn] in Hc.
-  - destruct (as_literal a) as [x|] eqn:La; [|exact I]. destruct (as_literal b) as [y|] eqn:Lb; [|exact I].
-    destruct (same_kind x y) eqn:Hk; [|discriminate].
-    pose proof (as_literal_some _ _ La) as Ea. pose proof (as_literal_some _ _ Lb) as Eb. subst a b.
-    destruct (literals_equal x y) eqn:Hl; cbn [fold_ok]; intros r t Hs;
-      unfold sem3 in Hs; cbn [eval] in Hs; rewrite bind_ret_tv in Hs;
-      destruct (literals_equal_spec x y CEq t Hk La Lb Hs) as (c & -> & Hiff).
-    + assert (c = Eq) by (now apply Hiff). subst c. reflexivity.
-    + destruct c; try reflexivity. assert (literals_equal x y = true) by (now apply Hiff). congruence.
-  - destruct (as_literal a) as [x|] eqn:La; [|exact I]. destruct (as_literal b) as [y|] eqn:Lb; [|exact I].
-    destruct (same_kind x y) eqn:Hk; [|discriminate].
-    pose proof (as_literal_some _ _ La) as Ea. pose proof (as_literal_some _ _ Lb) as Eb. subst a b.
-    destruct (literals_equal x y) eqn:Hl; cbn [fold_ok]; intros r t Hs;
-      unfold sem3 in Hs; cbn [eval] in Hs; rewrite bind_ret_tv in Hs;
-      destruct (literals_equal_spec x y CNe t Hk La Lb Hs) as (c & -> & Hiff).
-    + assert (c = Eq) by (now apply Hiff). subst c. reflexivity.
-    + destruct c; try reflexivity. assert (literals_equal x y = true) by (now apply Hiff). congruence.
+  intros a r t H. rewrite sem3_not in H. destruct (sem3 a r) as [ta|]; [|discriminate]. injection H as <-. eauto.
 Qed.
 
-Lemma try_fold_sound : forall e, cls_syn e = 0 -> fold_ok e (try_fold e).
+Lemma try_fold_cmp : forall op a b, fold_ok (ECmp op a b) (try_fold (ECmp op a b)).
+Proof.
+  intros op a b.
+  destruct op; cbn [try_fold]; try exact I.
+  - destruct (as_literal a) as [x|] eqn:La; [|exact I]. destruct (as_literal b) as [y|] eqn:Lb; [|exact I].
+    pose proof (as_literal_some _ _ La) as Ea. pose proof (as_literal_some _ _ Lb) as Eb. subst a b.
+    destruct (literals_equal x y) as [eq|] eqn:Hl; [|exact I].
+    destruct eq; cbn [option_map fold_ok]; intros r t Hs;
+      unfold sem3 in Hs; cbn [eval] in Hs; rewrite bind_ret_tv in Hs;
+      destruct (literals_equal_spec x y _ CEq t Hl Hs) as (c & -> & Hiff).
+    + assert (c = Eq) by (now apply Hiff). subst c. reflexivity.
+    + destruct c; try reflexivity. assert (false = true) by (now apply Hiff). discriminate.
+  - destruct (as_literal a) as [x|] eqn:La; [|exact I]. destruct (as_literal b) as [y|] eqn:Lb; [|exact I].
+    pose proof (as_literal_some _ _ La) as Ea. pose proof (as_literal_some _ _ Lb) as Eb. subst a b.
+    destruct (literals_equal x y) as [eq|] eqn:Hl; [|exact I].
+    destruct eq; cbn [option_map fold_ok]; intros r t Hs;
+      unfold sem3 in Hs; cbn [eval] in Hs; rewrite bind_ret_tv in Hs;
+      destruct (literals_equal_spec x y _ CNe t Hl Hs) as (c & -> & Hiff).
+    + assert (c = Eq) by (now apply Hiff). subst c. reflexivity.
+    + destruct c; try reflexivity. assert (false = true) by (now apply Hiff). discriminate.
+Qed.
+
+Lemma try_fold_sound : forall e, fold_ok e (try_fold e).
 Proof.
   induction e as [i|lv|op a IHa b IHb|op a IHa b IHb|a IHa b IHb|a IHa b IHb|a IHa|neg a IHa l|neg a IHa lo IHlo hi IHhi|neg a IHa p IHp|neg a IHa];
-    intros Hc; cbn [cls_syn] in Hc; try discriminate; try exact I.
+    try exact I.
   - (* literal *)
-    destruct lv as [| | | |[]]; try discriminate; cbn; intros r t Hs; unfold sem3 in Hs; cbn in Hs; injection Hs as <-; reflexivity.
-  - (* comparison *) now apply try_fold_cmp.
+    destruct lv as [| | | |[]]; try exact I; cbn; intros r t Hs; unfold sem3 in Hs; cbn in Hs; congruence.
+  - (* comparison *) apply try_fold_cmp.
   - (* AND *)
-    split_nz. specialize (IHa H). specialize (IHb H0). cbn [try_fold].
+    cbn [try_fold].
     destruct (try_fold a) as [[| |a']|] eqn:Fa, (try_fold b) as [[| |b']|] eqn:Fb; cbn [fold_ok] in *; try exact I.
-    + (* TRUE, TRUE *) intros r t Hs. apply sem3_and_inv in Hs as (ta & tb & Sa & Sb & ->).
+    + intros r t Hs. apply sem3_and_inv in Hs as (ta & tb & Sa & Sb & ->).
       now rewrite (IHa r ta Sa), (IHb r tb Sb).
-    + (* TRUE, FALSE *) intros r t Hs. apply sem3_and_inv in Hs as (ta & tb & Sa & Sb & ->).
-      rewrite tv_is_true_and, (IHb r tb Sb). apply andb_false_r.
-    + (* TRUE, None *) split; [exact H0|]. split; [exact Fb|]. split.
+    + intros r t Hs. apply sem3_and_inv in Hs as (ta & tb & Sa & Sb & ->).
+      rewrite (IHb r tb Sb). now destruct ta.
+    + split; [intros W; cbn in W; now apply andb_prop in W as [_ W]|]. split; [exact Fb|]. split.
       * intros r t Hs. apply sem3_and_inv in Hs as (ta & tb & Sa & Sb & ->).
         exists tb. split; [exact Sb|]. now rewrite (IHa r ta Sa), tv_and_TT_l.
-      * intros r Hp. cbn [cls_p] in Hp. now split_nz.
-    + (* FALSE, _ *) intros r t Hs. apply sem3_and_inv in Hs as (ta & tb & Sa & Sb & ->).
-      now rewrite tv_is_true_and, (IHa r ta Sa).
+      * intros r Hp. cbn [cls13] in Hp. now apply first_nz_0 in Hp as [_ Hp].
+    + intros r t Hs. apply sem3_and_inv in Hs as (ta & tb & Sa & Sb & ->). now rewrite (IHa r ta Sa).
+    + intros r t Hs. apply sem3_and_inv in Hs as (ta & tb & Sa & Sb & ->). now rewrite (IHa r ta Sa).
+    + intros r t Hs. apply sem3_and_inv in Hs as (ta & tb & Sa & Sb & ->). now rewrite (IHa r ta Sa).
+    + intros r t Hs. apply sem3_and_inv in Hs as (ta & tb & Sa & Sb & ->). now rewrite (IHa r ta Sa).
     + intros r t Hs. apply sem3_and_inv in Hs as (ta & tb & Sa & Sb & ->).
-      now rewrite tv_is_true_and, (IHa r ta Sa).
-    + intros r t Hs. apply sem3_and_inv in Hs as (ta & tb & Sa & Sb & ->).
-      now rewrite tv_is_true_and, (IHa r ta Sa).
-    + intros r t Hs. apply sem3_and_inv in Hs as (ta & tb & Sa & Sb & ->).
-      now rewrite tv_is_true_and, (IHa r ta Sa).
-    + (* Simp, FALSE *) intros r t Hs. apply sem3_and_inv in Hs as (ta & tb & Sa & Sb & ->).
-      rewrite tv_is_true_and, (IHb r tb Sb). apply andb_false_r.
-    + (* None, TRUE *) split; [exact H|]. split; [exact Fa|]. split.
+      rewrite (IHb r tb Sb). now destruct ta.
+    + split; [intros W; cbn in W; now apply andb_prop in W as [W _]|]. split; [exact Fa|]. split.
       * intros r t Hs. apply sem3_and_inv in Hs as (ta & tb & Sa & Sb & ->).
         exists ta. split; [exact Sa|]. rewrite (IHb r tb Sb). now destruct ta.
-      * intros r Hp. cbn [cls_p] in Hp. now split_nz.
-    + (* None, FALSE *) intros r t Hs. apply sem3_and_inv in Hs as (ta & tb & Sa & Sb & ->).
-      rewrite tv_is_true_and, (IHb r tb Sb). apply andb_false_r.
+      * intros r Hp. cbn [cls13] in Hp. now apply first_nz_0 in Hp as [Hp _].
+    + intros r t Hs. apply sem3_and_inv in Hs as (ta & tb & Sa & Sb & ->).
+      rewrite (IHb r tb Sb). now destruct ta.
   - (* OR *)
-    split_nz. specialize (IHa H). specialize (IHb H0). cbn [try_fold].
+    cbn [try_fold].
     destruct (try_fold a) as [[| |a']|] eqn:Fa, (try_fold b) as [[| |b']|] eqn:Fb; cbn [fold_ok] in *; try exact I.
-    + (* TRUE, _ *) intros r t Hs. apply sem3_or_inv in Hs as (ta & tb & Sa & Sb & ->).
-      now rewrite (IHa r ta Sa), tv_or_TT_l.
+    + intros r t Hs. apply sem3_or_inv in Hs as (ta & tb & Sa & Sb & ->). now rewrite (IHa r ta Sa), tv_or_TT_l.
+    + intros r t Hs. apply sem3_or_inv in Hs as (ta & tb & Sa & Sb & ->). now rewrite (IHa r ta Sa), tv_or_TT_l.
+    + intros r t Hs. apply sem3_or_inv in Hs as (ta & tb & Sa & Sb & ->). now rewrite (IHa r ta Sa), tv_or_TT_l.
+    + intros r t Hs. apply sem3_or_inv in Hs as (ta & tb & Sa & Sb & ->). now rewrite (IHa r ta Sa), tv_or_TT_l.
     + intros r t Hs. apply sem3_or_inv in Hs as (ta & tb & Sa & Sb & ->).
-      now rewrite (IHa r ta Sa), tv_or_TT_l.
-    + intros r t Hs. apply sem3_or_inv in Hs as (ta & tb & Sa & Sb & ->).
-      now rewrite (IHa r ta Sa), tv_or_TT_l.
-    + intros r t Hs. apply sem3_or_inv in Hs as (ta & tb & Sa & Sb & ->).
-      now rewrite (IHa r ta Sa), tv_or_TT_l.
-    + (* FALSE, TRUE *) intros r t Hs. apply sem3_or_inv in Hs as (ta & tb & Sa & Sb & ->).
       rewrite (IHb r tb Sb). now destruct ta.
-    + (* FALSE, FALSE *) intros r t Hs. apply sem3_or_inv in Hs as (ta & tb & Sa & Sb & ->).
-      rewrite tv_is_true_or, (IHa r ta Sa), (IHb r tb Sb). reflexivity.
-    + (* FALSE, None *) split; [exact H0|]. split; [exact Fb|]. split.
+    + intros r t Hs. apply sem3_or_inv in Hs as (ta & tb & Sa & Sb & ->).
+      now rewrite (IHa r ta Sa), (IHb r tb Sb).
+    + split; [intros W; cbn in W; now apply andb_prop in W as [_ W]|]. split; [exact Fb|]. split.
       * intros r t Hs. apply sem3_or_inv in Hs as (ta & tb & Sa & Sb & ->).
-        exists tb. split; [exact Sb|]. rewrite tv_is_true_or, (IHa r ta Sa). reflexivity.
-      * intros r Hp. cbn [cls_p] in Hp. now split_nz.
-    + (* Simp, TRUE *) intros r t Hs. apply sem3_or_inv in Hs as (ta & tb & Sa & Sb & ->).
+        exists tb. split; [exact Sb|]. now rewrite (IHa r ta Sa), tv_or_FF_l.
+      * intros r Hp. cbn [cls13] in Hp. now apply first_nz_0 in Hp as [_ Hp].
+    + intros r t Hs. apply sem3_or_inv in Hs as (ta & tb & Sa & Sb & ->).
       rewrite (IHb r tb Sb). now destruct ta.
-    + (* None, TRUE *) intros r t Hs. apply sem3_or_inv in Hs as (ta & tb & Sa & Sb & ->).
+    + intros r t Hs. apply sem3_or_inv in Hs as (ta & tb & Sa & Sb & ->).
       rewrite (IHb r tb Sb). now destruct ta.
-    + (* None, FALSE *) split; [exact H|]. split; [exact Fa|]. split.
+    + split; [intros W; cbn in W; now apply andb_prop in W as [W _]|]. split; [exact Fa|]. split.
       * intros r t Hs. apply sem3_or_inv in Hs as (ta & tb & Sa & Sb & ->).
-        exists ta. split; [exact Sa|]. rewrite tv_is_true_or, (IHb r tb Sb), orb_false_r. reflexivity.
-      * intros r Hp. cbn [cls_p] in Hp. now split_nz.
+        exists ta. split; [exact Sa|]. rewrite (IHb r tb Sb). now destruct ta.
+      * intros r Hp. cbn [cls13] in Hp. now apply first_nz_0 in Hp as [Hp _].
+  - (* NOT *)
+    cbn [try_fold]. destruct (try_fold a) as [[| |a']|] eqn:Fa; cbn [fold_ok] in *; try exact I.
+    + intros r t Hs. apply sem3_not_inv in Hs as (ta & Sa & ->). now rewrite (IHa r ta Sa).
+    + intros r t Hs. apply sem3_not_inv in Hs as (ta & Sa & ->). now rewrite (IHa r ta Sa).
 Qed.
 
 (* ------------------------------------------------------------------ rows *)
@@ -181,17 +154,17 @@ Proof.
     + intros H. inversion H. auto.
 Qed.
 
-
 Lemma filter_rows_correct : forall e t,
-  Forall (fun r => cls_p e r = 0) t -> defined_on e t = true ->
+  wf_expr e = true -> plain_table t = true ->
+  Forall (fun r => cls13 e r = 0) t -> defined_on e t = true ->
   filter_rows e t = Ok (spec_rows e t).
 Proof.
-  intros e. induction t as [|r t IH]; intros Hc Hd; [reflexivity|].
-  inversion Hc as [|? ? Hr Ht]; subst. unfold defined_on in Hd. cbn [forallb] in Hd.
-  apply andb_prop in Hd as [Hd1 Hd2].
+  intros e t Hw. induction t as [|r t IH]; intros Hp Hc Hd; [reflexivity|].
+  inversion Hc as [|? ? Hr Ht]; subst. unfold defined_on in Hd. cbn [forallb plain_table] in Hd, Hp.
+  apply andb_prop in Hd as [Hd1 Hd2]. apply andb_prop in Hp as [Hp1 Hp2].
   destruct (sem3 e r) as [tv0|] eqn:Es; [|discriminate].
-  cbn [filter_rows spec_rows map]. rewrite (where_row_correct e r tv0 Hr Es). cbn [bindr].
-  fold (spec_rows e t). rewrite (IH Ht Hd2). cbn [bindr]. unfold passes. rewrite Es.
+  cbn [filter_rows spec_rows map]. rewrite (eval_expr_correct e r tv0 Hw Hp1 Hr Es). cbn [bindr].
+  fold (spec_rows e t). rewrite (IH Hp2 Ht Hd2). cbn [bindr]. unfold passes. rewrite Es.
   now destruct tv0.
 Qed.
 
@@ -209,31 +182,59 @@ Proof.
   - unfold defined_on. cbn [forallb]. rewrite Es'. exact I2.
 Qed.
 
-Lemma rows_all_true : forall e t,
-  (forall r t0, sem3 e r = Some t0 -> t0 = TT) -> defined_on e t = true ->
-  spec_rows e t = map (fun _ => 1) t.
+Lemma rows_const : forall e t c,
+  (forall r t0, sem3 e r = Some t0 -> t0 = c) -> defined_on e t = true ->
+  spec_rows e t = map (fun _ => Z.b2z (tv_is_true c)) t.
 Proof.
-  intros e t H. induction t as [|r t IH]; intros Hd; [reflexivity|].
+  intros e t c H. induction t as [|r t IH]; intros Hd; [reflexivity|].
   unfold defined_on in Hd. cbn [forallb] in Hd. apply andb_prop in Hd as [Hd1 Hd2].
   destruct (sem3 e r) as [t0|] eqn:Es; [|discriminate].
-  cbn [spec_rows map]. fold (spec_rows e t). rewrite (IH Hd2). unfold passes. rewrite Es, (H r t0 Es). reflexivity.
+  cbn [spec_rows map]. fold (spec_rows e t). rewrite (IH Hd2). unfold passes. rewrite Es, (H r t0 Es).
+  now destruct c.
 Qed.
 
-(* the statement as the optimizer + executor run it, fully parenthesised text *)
-Theorem where_query_correct : forall e t,
-  cls_where 0 e t = 0 -> defined_on e t = true ->
-  model_where e t = MOut (QRows (spec_rows e t)).
+Lemma filter_false : forall t, filter_rows (ELit (VBool false)) t = Ok (map (fun _ => 0) t).
+Proof. induction t as [|r t IH]; [reflexivity|]. cbn [filter_rows]. rewrite IH. reflexivity. Qed.
+
+Lemma cls_query_0 : forall e t, cls_query e t = 0 ->
+  wf_expr e = true /\ plain_table t = true /\ Forall (fun r => cls13 e r = 0) t.
 Proof.
-  intros e t Hc Hd. unfold cls_where in Hc. split_nz.
-  rename H0 into Hsyn. rename H1 into Hfold. rename H2 into Hrows.
-  apply first_row_0 in Hrows. pose proof (try_fold_sound e Hsyn) as Hf.
+  intros e t H. unfold cls_query in H. destruct (wf_expr e && plain_table t) eqn:E; [|discriminate].
+  apply andb_prop in E as [E1 E2]. apply first_row_0 in H. auto.
+Qed.
+
+(* SELECT * FROM t WHERE e: parser (either printing style), optimizer, executor *)
+Theorem where_query_correct : forall sty e t,
+  cls_where sty e t = 0 -> defined_on e t = true ->
+  model_where (parsed sty e) t = MOut (QRows (spec_rows e t)).
+Proof.
+  intros sty e t Hc Hd. unfold cls_where in Hc. apply cls_query_0 in Hc as (Hw & Hp & Hrows).
+  unfold parsed. pose proof (try_fold_sound e) as Hf.
   unfold model_where. cbn [fold_iter] in *.
   destruct (try_fold e) as [[| |e']|] eqn:Ef; cbn [fold_ok] in Hf.
-  - (* TRUE: the filter is dropped *) now rewrite (rows_all_true e t Hf Hd).
-  - discriminate.
-  - destruct Hf as (Hs' & Hn' & Hsem & Hcls). cbn [fold_iter]. rewrite Hn'.
+  - now rewrite (rows_const e t TT Hf Hd).
+  - rewrite filter_false. now rewrite (rows_const e t FF Hf Hd).
+  - destruct Hf as (Hw' & Hn' & Hsem & Hcls). cbn [fold_iter]. rewrite Hn'.
     destruct (spec_rows_ext e e' t Hsem Hd) as (R1 & R2).
-    rewrite filter_rows_correct; [now rewrite R1| |exact R2].
+    rewrite filter_rows_correct; [now rewrite R1|now apply Hw'|exact Hp| |exact R2].
     eapply Forall_impl; [|exact Hrows]. intros r. apply Hcls.
-  - now rewrite (filter_rows_correct e t Hrows Hd).
+  - now rewrite (filter_rows_correct e t Hw Hp Hrows Hd).
+Qed.
+
+(* SELECT id, (e) FROM t *)
+Theorem select_query_correct : forall sty e t,
+  cls_select sty e t = 0 -> defined_on e t = true ->
+  model_select (parsed sty e) t = MOut (QVals (spec_vals e t)).
+Proof.
+  intros sty e t Hc Hd. unfold cls_select in Hc. apply cls_query_0 in Hc as (Hw & Hp & Hrows).
+  unfold parsed, model_select.
+  assert (G : select_rows e t = Ok (spec_vals e t)).
+  { induction t as [|r t IH]; [reflexivity|].
+    inversion Hrows as [|? ? Hr Ht]; subst. unfold defined_on in Hd. cbn [forallb plain_table] in Hd, Hp.
+    apply andb_prop in Hd as [Hd1 Hd2]. apply andb_prop in Hp as [Hp1 Hp2].
+    destruct (sem3 e r) as [t0|] eqn:Es; [|discriminate].
+    destruct (eval_value_correct e r t0 Hw Hp1 Hr Es) as (o & Vo & Co).
+    cbn [select_rows spec_vals map]. rewrite Vo. cbn [bindr]. fold (spec_vals e t).
+    rewrite (IH Hp2 Ht Hd2). cbn [bindr]. now rewrite Es, Co. }
+  now rewrite G.
 Qed.
